@@ -2,7 +2,7 @@ CONSTANTS
   MaxSeq = 2
   Triples = FALSE
   FilePairs = "reduced"
-  ReducedPairVC = {"zero", "max", "filelen", "self"}
+  ReducedPairVC = {"zero", "max", "filelen", "self", "eqnext"}
 SPECIFICATION Spec
 INVARIANTS LemmasAndEmit Sanity
 CHECK_DEADLOCK FALSE
